@@ -54,7 +54,8 @@ def regen_facts():
 
 def regen_trans():
     """Go-to-Lean translator (go/translate) -> lean/Pw/Generated/Trans.lean (pkg/buffer) and TransCopy.lean
-    (copy.go of the root package) and TransError.lean (the ErrorResponse builder of error.go) as executable
+    (copy.go of the root package) TransError.lean (the ErrorResponse builder of error.go), TransWriter.lean (the result writer of writer.go/row.go)
+    and TransCache.lean (the statement and portal caches of cache.go) as executable
     Lean definitions, re-derived from the working tree on every run (each file only rewritten when changed)."""
     exe = os.path.join(BIN, "pwtranslate")
     r = sh(["go", "build", "-o", exe, "."], cwd=TRANSLATE_SRC, env=GOENV)
@@ -72,6 +73,12 @@ def regen_trans():
         ([exe, "-error", REPO], "TransError.lean",
          "/- GENERATED: translation failed -/\nimport Pw.Generated.Trans\nimport Pw.Go.RtError\nnamespace Pw.TransError\n"
          "def untranslatable : List String := [\"translator failed\"]\nend Pw.TransError\n"),
+        ([exe, "-writer", REPO], "TransWriter.lean",
+         "/- GENERATED: translation failed -/\nimport Pw.Generated.Trans\nimport Pw.Go.RtWriter\nnamespace Pw.TransWriter\n"
+         "def untranslatable : List String := [\"translator failed\"]\nend Pw.TransWriter\n"),
+        ([exe, "-cache", REPO], "TransCache.lean",
+         "/- GENERATED: translation failed -/\nimport Pw.Go.RtCache\nnamespace Pw.TransCache\n"
+         "def untranslatable : List String := [\"translator failed\"]\nend Pw.TransCache\n"),
     ]
     ok, msgs = True, []
     for cmd, name, stub in jobs:
